@@ -39,6 +39,10 @@ for pid, v, sc in [("C01", "c01_verdicts", "c01_in_scope"), ("C02", "c02_verdict
         property_modules=[], theorems=[],
         proof_files=list(FK_MODEL),
         n_quick=500 if pid != "C18" else 250, n_thorough=30000 if pid != "C18" else 8000, n_escalate=4000,
+        also=([{"harness": "C05", "check_imports": ["Model.Block", "Model.Forkable", "Model.Burst", "Check.Fk_Check", "Check.Burst_Check", "Check.C06_Check", "Check.C04_More"],
+                "case_type": "br_case", "verdicts": "c04_burst_verdicts", "scope": None, "n_quick": 150, "n_thorough": 5000},
+               {"harness": "C06", "check_imports": ["Model.Block", "Model.Forkable", "Model.Burst", "Model.CursorResolver", "Check.Fk_Check", "Check.Burst_Check", "Check.C06_Check", "Check.C04_More"],
+                "case_type": "c06_case", "verdicts": "c04_file_verdicts", "scope": None, "n_quick": 200, "n_thorough": 5000}] if pid == "C04" else []),
         rule=FK_RULE, level_text=TEXT[pid], trusted_base=FK_TB,
         assumptions=["well-formed universe (wf_b): ids non-empty and unique, heights strictly increase from parent to child",
                      "C02-C04, C18: LIB declarations in the class lib_ok (Spec/Universe.v); other histories are compared with the model only"])
